@@ -162,6 +162,28 @@ def check(index, ctx):
                         ctx.require(accum or raised_in_loop, "R3", f"{fi.short}: every task's parameters are compared with the shared ones",
                                     "intersection accumulated over / tested inside the loop over tasks",
                                     f"`{norm_text(st)}` overwrites `{v}` on every iteration of the loop over the tasks and is only tested after the loop: only the LAST task is checked for overlap", fi.loc(st))
+    # the element-wise form of the check walks ALL the tasks: it is not left early on a condition about one of them
+    rej_fns = {e["function"] for r in rej for e in _pipe.evs(r, "raise")[-1:] if r.kind == "raise"} | {e["function"] for r in rej[:1] for e in _pipe.evs(r, "raise") if e.get("loops")}
+    if ov_fn:
+        rej_fns.add(ov_fn)
+    for qn in sorted(rej_fns):
+        fi = index.functions.get(qn)
+        if fi is None:
+            continue
+        ctx.analysed(fi.qualname)
+        from ..cfg import cfg_of as _cfg_of
+
+        g_ = _cfg_of(fi.node)
+        for loop in [n for n in ast.walk(fi.node) if isinstance(n, ast.For)]:
+            variant = {x.id for x in ast.walk(loop.target) if isinstance(x, ast.Name)} | {x.id for st in ast.walk(loop) for x in ast.walk(st) if isinstance(x, ast.Name) and isinstance(x.ctx, ast.Store)}
+            for st in ast.walk(loop):
+                if not isinstance(st, (ast.Return, ast.Break)) or any(st in ast.walk(h) for h in ast.walk(loop) if isinstance(h, ast.For) and h is not loop):
+                    continue
+                nd_ = g_.node_of(st)
+                dep = [t for t, lbl in g_.guards_of(nd_) if t.kind == "test" and hasattr(t.ast, "test") and any(t.ast is x for x in ast.walk(loop)) and names_read(t.ast.test) & variant]
+                if dep:
+                    ctx.violated("R3", f"{fi.short}: the loop over the tasks is left by `{norm_text(st)}`", f"`{norm_text(st)}` under `{norm_text(dep[0].ast.test)[:70]}` ends the whole check at the first task "
+                                 "for which the test holds (e.g. a task without parameters): the parameters of the tasks after it are never compared with the shared ones", fi.loc(st))
     # ------------------------------------------------------------------------------------------------ R4
     traversal_idiom(index, ctx)
     _pipe.common_evidence(ctx, index)
@@ -426,6 +448,22 @@ def traversal_idiom(index, ctx):
                                                       if isinstance(x, ast.Call) and x.args and names_read(x.args[0]) & (set(succ_vars) | set(colls))):
             ctx.violated("R4", f"{F.short}: visited set", "adopted successors are never recorded in a visited set (nodes reachable along several paths are traversed repeatedly / never terminate on cycles)", F.loc())
             continue
+        if not is_coll:
+            # nothing else decides whether a successor is followed: a node skipped for any other reason takes the leaves below it out of the result
+            def recognised(c):
+                if isinstance(c, ast.Name):
+                    return True
+                if isinstance(c, ast.Compare) and len(c.ops) == 1 and isinstance(c.left, ast.Name) and c.left.id == what and isinstance(c.ops[0], (ast.Is, ast.IsNot, ast.In, ast.NotIn)):
+                    return True
+                return _kind_test(index, F, c, what)
+
+            extra = [(c, tr) for c, tr in guards if what in names_read(c) and not recognised(c)]
+            if extra:
+                c0, tr0 = extra[0]
+                ctx.violated("R4", f"{F.short}: successor `{what}` is followed only if `{norm_text(c0)[:60]}` is {tr0}",
+                             f"`{norm_text(n.ast)}` is also guarded by `{norm_text(c0)[:80]}`: a successor failing this test is not followed although it is neither None nor excluded nor visited, "
+                             "so every leaf that is reachable only through it is missing from the result", F.loc(c0))
+                continue
         ctx.require(not_none and bool(ok_sets), "R4", f"{F.short}: successor `{what}` {how}", "guarded by `is not None` and `not in` the visited/excluded set, and marked",
                     f"`{norm_text(n.ast)}`: successor `{what}` is {how} without " + ", ".join(x for x, ok in (("the `is not None` test", not_none), ("a `not in <visited>` test", bool(seen_sets)),
                                                                                                           ("adding it to the set the membership test reads", bool(ok_sets) or not seen_sets)) if not ok)
